@@ -117,6 +117,7 @@ def assignments(k):
 
 class C30(Check):
     id = "C30"
+    thorough_pinned = True  # full thorough enumeration observed quiet on the unchanged tree
     level = "exploration"
     rule = (
         "Pipeline: merge_source_patches(buffers) -> LintedFile._slice_source_file_using_patches -> "
